@@ -6,7 +6,7 @@
      a filter ("nodes without an IPv4 address are unaffected", at the level of the table API). *)
 From Coq Require Import List Arith NArith Lia Bool.
 From Discv5V Require Import Generated.Params Lib.ListX Lib.ListY Model.KBucket
-  Proofs.KBucketInv Proofs.KBucketTable Proofs.KBucketPending Proofs.Subnet.
+  Proofs.KBucketInv Proofs.KBucketTable Proofs.KBucketPending Proofs.KBucketEntries Proofs.Subnet.
 Import ListNotations.
 
 (* the other records of the same /24: everything in [others] except copies of [v] itself *)
@@ -157,5 +157,107 @@ Proof.
     specialize (Hn (no_ip_unaffected _ v _ H)).
     destruct (b_insert c b {| nkey := k; nval := v; nconn := conn; nin := inc; nstamp := now |} now) as [b' r].
     cbn [fst snd] in *. destruct r; try congruence; split; discriminate.
+Qed.
+
+(* ---- update_node ---- *)
+
+(* replacing the element found by find_index by another one that satisfies the predicate *)
+Lemma find_index_replace {A} (q : A -> bool) (l : list A) : forall pos old x,
+  find_index q l = Some pos -> nth_error l pos = Some old -> q x = true ->
+  find_index q (insert_at pos x (remove_at pos l)) = Some pos /\
+  nth_error (insert_at pos x (remove_at pos l)) pos = Some x /\
+  remove_at pos (insert_at pos x (remove_at pos l)) = remove_at pos l.
+Proof.
+  induction l as [|y l IH]; intros pos old x F Nth Qx; [discriminate|].
+  cbn [find_index] in F. destruct (q y) eqn:Qy.
+  - injection F as <-. cbn [remove_at insert_at find_index nth_error]. rewrite Qx. auto.
+  - destruct (find_index q l) as [i|] eqn:Fi; [|discriminate]. cbn [option_map] in F. injection F as <-.
+    cbn [nth_error] in Nth. destruct (IH i old x eq_refl Nth Qx) as (A1 & A2 & A3).
+    cbn [remove_at insert_at find_index nth_error]. rewrite Qy, A1, A2, A3. auto.
+Qed.
+
+(* update_status fails with BucketFilter only if the filter refuses the STORED value of the node *)
+Lemma b_update_status_filter b k conn dir now :
+  snd (b_update_status c b k conn dir now) = UFailed FBucketFilter ->
+  exists pos old, position k (nodes b) = Some pos /\ nth_error (nodes b) pos = Some old /\
+                  ip_bucket_filter (nval old) (values (remove_at pos (nodes b))) = false.
+Proof.
+  unfold b_update_status. destruct (position k (nodes b)) as [pos|] eqn:P.
+  - destruct (nth_error (nodes b) pos) as [old|] eqn:Nth; [|cbn; discriminate].
+    set (n := {| nkey := nkey old; nval := nval old; nconn := conn;
+                 nin := match dir with Some d => d | None => nin old end; nstamp := nstamp old |}).
+    set (b1 := {| nodes := remove_at pos (nodes b); fcp := _; pend := _ |}).
+    intro H. exists pos, old. split; [first [exact P|reflexivity]|]. split; [first [exact Nth|reflexivity]|].
+    destruct (ip_bucket_filter (nval old) (values (remove_at pos (nodes b)))) eqn:F; [|reflexivity]. exfalso.
+    pose proof (b_insert_passes_not_filtered b1 n now) as Hn. cbn [nval nodes n b1] in Hn.
+    rewrite Hbf in Hn. cbn [run_filter] in Hn. specialize (Hn F).
+    destruct (b_insert c b1 n now) as [b2 r]. cbn [snd] in *.
+    destruct r; cbn in H; try discriminate; try congruence.
+    repeat match type of H with (if ?x then _ else _) = _ => destruct x end; discriminate.
+  - destruct (pend b) as [p|]; [|cbn; discriminate]. destruct (N.eqb (nkey (pn p)) k); cbn; discriminate.
+Qed.
+
+Lemma b_update_status_not_table b k conn dir now :
+  snd (b_update_status c b k conn dir now) <> UFailed FTableFilter.
+Proof.
+  unfold b_update_status. destruct (position k (nodes b)) as [pos|].
+  - destruct (nth_error (nodes b) pos) as [old|]; [|cbn; discriminate].
+    match goal with |- context [b_insert c ?bb ?nn now] => destruct (b_insert c bb nn now) as [b2 r] end.
+    destruct r; cbn; try discriminate.
+    match goal with |- context [if ?x then _ else _] => destruct x end; [discriminate|].
+    match goal with |- context [if ?x then _ else _] => destruct x end; discriminate.
+  - destruct (pend b) as [p|]; [|cbn; discriminate]. destruct (N.eqb (nkey (pn p)) k); cbn; discriminate.
+Qed.
+
+(* update_node with a record without an IPv4 address never fails because of a filter.  Hypothesis:
+   a STORED record equal to the offered one (Rust ==; equality of vid in the model) has no IPv4
+   address either - true of every table the service builds, where vsub is a function of vid *)
+Theorem no_ip_update_never_filtered t k v state now :
+  vsub v = None -> (forall o, In o (table_values t) -> val_eqb o v = true -> vsub o = None) ->
+  snd (t_update_node c t k v state now) <> UFailed FTableFilter /\
+  snd (t_update_node c t k v state now) <> UFailed FBucketFilter.
+Proof.
+  intros H Eq0. unfold t_update_node. rewrite (passes_no_ip t k v H).
+  destruct (bucket_index (local t) k) as [i|]; [|cbn; split; discriminate].
+  assert (Eq : forall n, In n (nodes (fst (applied_bucket c t i now))) -> val_eqb (nval n) v = true -> vsub (nval n) = None).
+  { intros n Hn. apply Eq0. rewrite table_values_entries. apply in_map_iff. exists (ent n). split; [reflexivity|].
+    apply in_tentries. exists i. unfold applied_bucket in Hn.
+    pose proof (b_apply_pending_entries c (get_bucket t i) now) as Hi.
+    destruct (b_apply_pending c (get_bucket t i) now) as [b0 a0]. cbn [fst] in *.
+    apply (Hi (ent n)). apply in_bentries_node. exact Hn. }
+  destruct (applied_bucket c t i now) as [b app]. cbn [negb fst] in *.
+  pose proof (b_update_value_no_ip b k v H) as Hv.
+  (* the node of k in the bucket after update_value carries a value without IPv4 address *)
+  assert (Hnode : forall pos old, position k (nodes (fst (b_update_value c b k v))) = Some pos ->
+            nth_error (nodes (fst (b_update_value c b k v))) pos = Some old ->
+            (forall f, snd (b_update_value c b k v) <> UFailed f) -> vsub (nval old) = None).
+  { unfold b_update_value. destruct (position k (nodes b)) as [pos0|] eqn:P0.
+    - destruct (nth_error (nodes b) pos0) as [old0|] eqn:N0; [|intros ? ? ? ? Hf; exfalso; eapply Hf; reflexivity].
+      destruct (val_eqb (nval old0) v) eqn:Ev.
+      + cbn [fst snd]. intros pos old P N' _. rewrite P0 in P. injection P as <-. rewrite N0 in N'. injection N' as <-.
+        apply Eq; [eapply nth_error_In; exact N0|exact Ev].
+      + rewrite Hbf. cbn [run_filter]. unfold ip_bucket_filter. rewrite (no_ip_unaffected _ v _ H). cbn [negb fst snd nodes].
+        intros pos old P N' _.
+        assert (Qx : N.eqb (nkey (set_val old0 v)) k = true).
+        { cbn [set_val nkey]. destruct (position_some _ _ _ P0) as (o' & No' & Ko'). rewrite N0 in No'. injection No' as <-.
+          apply N.eqb_eq. exact Ko'. }
+        destruct (find_index_replace (fun n => N.eqb (nkey n) k) (nodes b) pos0 old0 (set_val old0 v) P0 N0 Qx) as (A1 & A2 & _).
+        unfold position in P. rewrite A1 in P. injection P as <-. rewrite A2 in N'. injection N' as <-. exact H.
+    - destruct (pend b) as [p|].
+      + destruct (N.eqb (nkey (pn p)) k); cbn [fst snd nodes]; intros pos old P; congruence.
+      + cbn [fst snd]. intros pos old P; congruence. }
+  destruct (b_update_value c b k v) as [b1 ur]. cbn [fst snd] in *.
+  assert (St : forall s, snd (b_update_status c b1 k s None now) <> UFailed FTableFilter /\
+                         ((forall f, ur <> UFailed f) -> snd (b_update_status c b1 k s None now) <> UFailed FBucketFilter)).
+  { intro s. split; [apply b_update_status_not_table|]. intros Nf X.
+    destruct (b_update_status_filter b1 k s None now X) as (pos & old & P & N' & F).
+    assert (Vn : vsub (nval old) = None) by (apply (Hnode pos old P N'); exact Nf).
+    unfold ip_bucket_filter in F. rewrite (no_ip_unaffected _ _ _ Vn) in F. discriminate. }
+  destruct ur as [| | |f|].
+  4: { cbn. rewrite (Hv f eq_refl). split; discriminate. }
+  all: destruct state as [s|]; [|cbn; split; discriminate].
+  all: destruct (St s) as [S1 S2]; specialize (S2 ltac:(intros f0; discriminate)).
+  all: destruct (b_update_status c b1 k s None now) as [b2 sr]; cbn [fst snd] in *.
+  all: destruct sr as [| | |f'|]; cbn; try (split; discriminate); split; assumption.
 Qed.
 End Refusal.
